@@ -1,21 +1,22 @@
 #!/bin/bash
 # verify_seed.sh <worktree> <outdir> <crate> : confirms a seeded change compiles, passes the
 # existing suite, and that its demonstration fails with it and passes without it.
-# The demo (seed_demo.rs) is installed as <worktree>/crates/<crate>/tests/seed_demo.rs.
+# The demo (seed_demo.rs) is installed as <worktree>/<dir>/tests/seed_demo.rs, <dir> = crates/<crate>
+# unless given as the fourth argument (bin/tx3c for the CLI).
 set -u
-WT=$1; OUT=$2; CRATE=$3
+WT=$1; OUT=$2; CRATE=$3; DIR=${4:-crates/$3}
 export CARGO_NET_OFFLINE=true
 cd "$WT" || exit 2
-git checkout -q -- . ; rm -rf crates/$CRATE/tests/seed_demo.rs
+git checkout -q -- . ; rm -rf $DIR/tests/seed_demo.rs
 git apply "$OUT/patch.diff" || { echo "RESULT patch-does-not-apply"; exit 1; }
 cargo test --workspace --offline > "$OUT/suite_with_change.log" 2>&1
 SUITE=$?
-mkdir -p crates/$CRATE/tests && cp "$OUT/seed_demo.rs" crates/$CRATE/tests/seed_demo.rs
+mkdir -p $DIR/tests && cp "$OUT/seed_demo.rs" $DIR/tests/seed_demo.rs
 cargo test -p $CRATE --test seed_demo --offline > "$OUT/demo_with_change.log" 2>&1
 DEMO_WITH=$?
 git apply -R "$OUT/patch.diff"
 cargo test -p $CRATE --test seed_demo --offline > "$OUT/demo_without_change.log" 2>&1
 DEMO_WITHOUT=$?
-rm -f crates/$CRATE/tests/seed_demo.rs; rmdir crates/$CRATE/tests 2>/dev/null
+rm -f $DIR/tests/seed_demo.rs; rmdir $DIR/tests 2>/dev/null
 git checkout -q -- .
 echo "RESULT suite_with_change_rc=$SUITE demo_with_change_rc=$DEMO_WITH demo_without_change_rc=$DEMO_WITHOUT"
